@@ -73,6 +73,21 @@ func (b *Block) Body() *Body {
 	return b.body.content.(*Body)
 }
 
+// makeMultiLine converts a block that was parsed from the single-line form
+// into the normal multi-line form by starting a new line after its opening
+// brace. (The body takes care of terminating its own last line.)
+func (b *Block) makeMultiLine() {
+	if b.open == nil || b.open.after == nil {
+		return
+	}
+	b.children.Insert(b.open.after, Tokens{
+		{
+			Type:  hclsyntax.TokenNewline,
+			Bytes: []byte{'\n'},
+		},
+	})
+}
+
 // Type returns the type name of the block.
 func (b *Block) Type() string {
 	typeNameObj := b.typeName.content.(*identifier)
